@@ -137,6 +137,9 @@ func fileTreeRecursive(
 
 	// depth > 1
 
+	// a nil children slice means this call builds a fresh sub-tree; otherwise
+	// it is the top-level call carrying over the previous root.
+	subtree := children == nil
 	if children == nil {
 		children = make(fileShards, 0)
 	}
@@ -157,8 +160,8 @@ func fileTreeRecursive(
 	if len(children) == 0 {
 		// empty case
 		return fileShardMeta{}, nil
-	} else if len(children) == 1 {
-		// degenerate case
+	} else if len(children) == 1 && !subtree {
+		// degenerate case: nothing was added next to the previous root
 		return children[0], nil
 	}
 
